@@ -350,6 +350,55 @@ def shapes(ctx, rng, T):
     return out
 
 
+def histories(ctx, rng, T, n):
+    """random same-instant histories over few invoke ids: valid requests, their mutations, requests
+    whose answer needs segmentation, segments of a segmented request in any order, segment acks,
+    aborts, routed requests, garbage — colliding on purpose"""
+    conf = [k for k in sorted(T) if C.classify(T[k])[0] == "confirmed" and k != "dcc"]
+    body = T["wp-string"][6:]
+    parts = [body[i:i + 6] for i in range(0, len(body), 6)]
+    sadr = bytes.fromhex("0005") + b"\x01\x07"
+
+    def with_id(f, inv):
+        return f[:4] + bytes([inv]) + f[5:]
+
+    def one(inv):
+        r = rng.random()
+        if r < 0.22:
+            return with_id(T[rng.choice(conf)], inv)
+        if r < 0.34:
+            f = bytearray(with_id(T[rng.choice(conf)], inv))
+            if rng.random() < 0.3:
+                return bytes(f[:rng.randrange(0, len(f))])
+            pos = rng.randrange(0, len(f))
+            f[pos] = rng.getrandbits(8)
+            return bytes(f)
+        if r < 0.46:      # answer may need segmentation
+            f = bytearray(with_id(T[rng.choice(["rpm", "rp-index", "rp"])], inv))
+            f[2] = (f[2] & ~2) | (2 if rng.random() < 0.7 else 0)
+            f[3] = (rng.choice([0, 1, 4, 7]) << 4) | rng.choice([0, 0, 0, 1, 2, 5, 6])
+            return bytes(f)
+        if r < 0.62:      # a segment of a segmented WriteProperty
+            i = rng.randrange(len(parts))
+            mor = (i < len(parts) - 1) if rng.random() < 0.9 else rng.random() < 0.5
+            b0 = 8 | (4 if mor else 0) | 2
+            return b"\x01\x04" + bytes([b0, 0x05, inv, i, rng.choice([1, 2, 2, 4, 127, 0]), 15]) + parts[i]
+        if r < 0.76:      # segment ack
+            return b"\x01\x00" + bytes([0x40 | (2 if rng.random() < 0.15 else 0) | (1 if rng.random() < 0.15 else 0),
+                                        inv, rng.choice([0, 0, 1, 2, 3, 5, 255]), rng.choice([1, 2, 2, 4, 0, 200])])
+        if r < 0.82:      # abort
+            return b"\x01\x00" + bytes([0x70 | (1 if rng.random() < 0.3 else 0), inv, rng.getrandbits(8)])
+        if r < 0.90:      # routed
+            f = with_id(T[rng.choice(conf)], inv)
+            return bytes([1, f[1] | 0x08]) + sadr + f[2:]
+        ln = rng.choice([0, 1, 2, 3, 5, 9, 30])
+        return rng.choice([b"", b"\x01\x00", b"\x01\x04", b"\x01\x80", b"\x01\x20"]) + bytes(rng.getrandbits(8) for _ in range(ln))
+
+    for _ in range(n):
+        k = rng.choice([2, 3, 4, 6, 9])
+        yield [one(rng.choice([1, 2, 3])) for _ in range(k)], "history/%d" % k
+
+
 # ------------------------------------------------------------------ one shard
 
 def shard(ctx, spec):
@@ -364,6 +413,8 @@ def shard(ctx, spec):
             bl = bl[k::n]
     elif stream == "corpus":
         bl = corpus_batches()
+    elif stream == "history":
+        bl = [(fr, lab, None) for (fr, lab) in histories(ctx, rng, T, 150 if ctx.quick else 12000)]
     else:
         bl = [(fr, lab, pos) for (fr, lab, pos, _v) in P.batches(ctx, rng, stream, names, T)]
     drv = core.Driver("drv_c10")
@@ -406,7 +457,7 @@ def judge(ctx, stream, frames, label, pos, rec, mrep):
         if r.get("r") != "ok":
             raise core.Infra("model driver: %r" % (r,))
     # property oracle on the real device for the constructed histories (the c10 streams judge their own)
-    if stream == "shapes":
+    if stream in ("shapes", "history"):
         if not rec["terminated"]:
             ctx.fail("nontermination", case, "device still busy after the loop limit")
         if rec["residue"]["client"] or rec["residue"]["server"] or rec["residue"]["ssm_timers"]:
@@ -453,8 +504,13 @@ def judge(ctx, stream, frames, label, pos, rec, mrep):
     q = mrep[len(frames)]
     impl_view.append({"mid": rec["mid"]["sv"], "cl": rec["mid"]["cl"], "dcc": rec["mid"]["dcc"]})
     model_view.append({"mid": last["sv"], "cl": last["cl"], "dcc": last["dcc"]})
-    impl_view.append({"q": rec["fin"]["out"], "sv": rec["fin"]["sv"], "cl": rec["fin"]["cl"]})
-    model_view.append({"q": q["out"], "sv": q["sv"], "cl": q["cl"]})
+    qi, qm = rec["fin"]["out"], q["out"]
+    if stream == "history":
+        # transactions whose timers are due at the same instant fire in task-installation order in the
+        # scheduler and in list order in the model: compare per transaction (they are independent, C11)
+        qi, qm = sorted(qi, key=by_invoke), sorted(qm, key=by_invoke)
+    impl_view.append({"q": qi, "sv": rec["fin"]["sv"], "cl": rec["fin"]["cl"]})
+    model_view.append({"q": qm, "sv": q["sv"], "cl": q["cl"]})
     ctx.count("model/quiesce", (len(rec["mid"]["sv"]), q.get("br")))
     if core.canon(impl_view) != core.canon(model_view):
         # keep the first difference readable
@@ -498,6 +554,11 @@ def reference_oracle(ctx, case, frames, rec, mrep):
         ctx.fail("nontermination", case, "device still busy after the loop limit")
 
 
+def by_invoke(o):
+    h = C.decode_apdu_header(bytes.fromhex(o[1]))
+    return (h or {}).get("invoke", -1)
+
+
 def corpus_batches():
     import os, json
     d = os.path.join(core.VERIF, "corpus", "C10")
@@ -513,6 +574,7 @@ def specs(ctx):
     s = [("corpus", ["all"])]
     s += P.specs(ctx)
     s += [("shapes", [str(k), "4"]) for k in range(4)]
+    s += [("history", ["h%d" % k]) for k in range(4 if ctx.quick else 16)]
     return s
 
 
